@@ -123,8 +123,12 @@ class EnvSession:
         if case.get("folds"):
             folds = {k: [from_us(a), from_us(b)] for k, (a, b) in case["folds"].items()}
         wu = case.get("warmup")
-        tx = Transmitter([from_us(t) for t in case["grid"]], folds, bool(case.get("markov", False)),
-                         None if wu is None else dt.timedelta(microseconds=wu))
+        grow = case.get("grow_after") if folds else None
+        grid_all = sorted(set(case["grid"]))
+        if grow is not None and not (1 <= grow < len(grid_all)):
+            grow = None
+        tx = Transmitter([from_us(t) for t in (grid_all[:grow] if grow is not None else case["grid"])], folds,
+                         bool(case.get("markov", False)), None if wu is None else dt.timedelta(microseconds=wu))
         evs = []
         for e in case["events"]:
             if e[0] == "q":
@@ -136,12 +140,22 @@ class EnvSession:
                 evs.append(EventContractDiscontinued(from_us(e[2]), self.objs[e[1]]))
             else:
                 evs.append(EvCustom(from_us(e[2]), e[1]))
-        tx.add_events(evs)
+        if grow is None:
+            tx.add_events(evs)
+        else:
+            cut = from_us(grid_all[grow - 1])
+            tx.add_events([e for e in evs if e.time <= cut])
         sp = case["space"]
         keys = []
         for k in sp["keys"]:
             keys.append(Cash() if k == "USD" else self.chains[k[1:]] if k.startswith("@") else self.objs[k])
-        if sp["kind"] == "box":
+        if sp["kind"] == "box" and sp.get("lows") is not None:
+            # a box with its own bounds for every contract (array `low` / `high`)
+            space = BoxPortfolio(keys, np.array([float(Fraction(x)) for x in sp["lows"]]),
+                                 np.array([float(Fraction(x)) for x in sp["highs"]]),
+                                 as_weights=bool(sp.get("asWeights", 1)), fractional=bool(sp.get("fractional", 1)),
+                                 margin=float(Fraction(sp.get("margin", "0"))))
+        elif sp["kind"] == "box":
             space = BoxPortfolio(keys, float(Fraction(sp["low"])), float(Fraction(sp["high"])),
                                  as_weights=bool(sp.get("asWeights", 1)), fractional=bool(sp.get("fractional", 1)),
                                  margin=float(Fraction(sp.get("margin", "0"))))
@@ -164,6 +178,29 @@ class EnvSession:
         lat_us = int(case.get("latency", 0))
         self.deposit = F(float(Fraction(case.get("deposit", "100000"))))
         self.build_error = None
+        if grow is not None:
+            # the Transmitter first holds only the beginning of the data and serves another environment on every
+            # fold; the rest of the timesteps and events is appended afterwards (add_timesteps / add_events), and the
+            # environment under test is then built on it: its episodes are those of the whole data
+            try:
+                if sp["kind"] == "box":
+                    space0 = BoxPortfolio(keys, float(Fraction(sp.get("low", "0"))), float(Fraction(sp.get("high", "1"))))
+                else:
+                    space0 = DiscretePortfolio(keys, [[float(Fraction(x)) for x in a] for a in sp["allocs"]])
+                env0 = TradingEnv(action_space=space0, transmitter=tx, initial_cash=float(self.deposit),
+                                  broker_fees=BrokerFees(markup, self.rate, prop, fixed), latency=lat_us / 1e6, steps_delay=0)
+                for fold0 in folds:
+                    try:
+                        env0.reset(fold0)
+                        env0.step(space0.null_action())
+                    except Exception:  # noqa  (a fold that is still empty, ...)
+                        pass
+            except Exception:  # noqa
+                pass
+            cut = from_us(grid_all[grow - 1])
+            tx.add_timesteps([from_us(t) for t in grid_all[grow:]])
+            tx.add_events([e for e in evs if e.time > cut])
+            run.tags.add("transmitter-grown")
         if case.get("pre_env_latency") is not None:
             # the same Transmitter object first serves another environment, built with a different latency and
             # run for a reset and a step: nothing of that may leak into the environment under test
@@ -237,7 +274,13 @@ class EnvSession:
         for name_, ch in self.chains.items():
             r.op("chain @{} {} {}".format(name_, ch._month, " ".join(
                 f"{us(c.last_trading_date)}:{c.symbol}" for c in ch.contracts)))
-        if sp["kind"] == "box":
+        if sp["kind"] == "box" and sp.get("lows") is not None:
+            r.op("space boxv {} {} {} {} {} {}".format(
+                int(sp.get("asWeights", 1)), int(sp.get("fractional", 1)), fr(float(Fraction(sp.get("margin", "0")))),
+                len(sp["lows"]),
+                " ".join("{}:{}".format(fr(float(Fraction(a))), fr(float(Fraction(b)))) for a, b in zip(sp["lows"], sp["highs"])),
+                " ".join(sp["keys"])))
+        elif sp["kind"] == "box":
             r.op("space box {} {} {} {} {} {}".format(
                 fr(float(Fraction(sp["low"]))), fr(float(Fraction(sp["high"]))), int(sp.get("asWeights", 1)),
                 int(sp.get("fractional", 1)), fr(float(Fraction(sp.get("margin", "0")))), " ".join(sp["keys"])))
